@@ -56,3 +56,56 @@ func Harness_stats_counts() {
 	verifAssert("first-record-is-first-heading", field("First", "record:") == heads[0])
 	verifAssert("last-record-is-last-heading", field("Last", "record:") == heads[R-1])
 }
+
+// Harness_stats_distances: the "(n days ago)" figures are the whole days between --today and
+// the first / last heading (concrete supplement: Time.Sub on symbolic instants is out of the
+// solvers' reach, so the dates here are concrete and the executor runs as an interpreter
+// through the real Duration.Hours code).
+func Harness_stats_distances() {
+	layout := "2006/01/02"
+	todays := []string{"2021/03/01", "2021/12/31", "2020/03/01", "2021/01/01"}
+	today := todays[verifChoose("today", len(todays))]
+	dists := []int{0, 1, 2, 28, 29, 59, 365, 366, 1000, -1, -30}
+	d1 := dists[verifChoose("first-distance", len(dists))]
+	d2 := dists[verifChoose("last-distance", len(dists))]
+	now, _ := time.Parse(layout, today)
+	first := now.AddDate(0, 0, -d1).Format(layout)
+	last := now.AddDate(0, 0, -d2).Format(layout)
+	logSrc := first + ":\n  a: 1\n" + last + ":\n  a: 2\n"
+	sink := newVerifSink(-1)
+	rc := reporter.NewDefaultConfig()
+	rc.Output = sink
+	rc.DateFormat = hReporterLayout(layout)
+	err := Stats(verifFile("log", logSrc), verifFile("db", "r:\n  x: 1\n"), StatsConfig{Now: now, ParserConfig: parser.NewDefaultConfig(), ReporterConfig: rc})
+	verifCover("ran")
+	verifAssert("stats-ok", err == nil)
+	days := func(w0 string) string {
+		for _, l := range verifLines(sink.String()) {
+			w := verifWords(l)
+			if len(w) >= 4 && w[0] == w0 && w[1] == "record:" {
+				return w[3]
+			}
+		}
+		return "<missing>"
+	}
+	itoa := func(n int) string {
+		neg := n < 0
+		if neg {
+			n = -n
+		}
+		s := ""
+		for {
+			s = string(rune('0'+n%10)) + s
+			n /= 10
+			if n == 0 {
+				break
+			}
+		}
+		if neg {
+			s = "-" + s
+		}
+		return s
+	}
+	verifAssert("first-record-days-ago", days("First") == "("+itoa(d1))
+	verifAssert("last-record-days-ago", days("Last") == "("+itoa(d2))
+}
